@@ -248,7 +248,7 @@ func genRowCol(g *vlib.G) {
 								tag := fmt.Sprintf("%s(dst=%v, %d, %s %s)", which, withDst, idx, ka.name, fmtShape(r, c))
 								var dst, back []float64
 								if withDst {
-									back = poisoned(l + 4)
+									back = rpoisoned(l + 4)
 									dst = back[2 : 2+l : 2+l]
 								}
 								v.calls++
@@ -282,7 +282,7 @@ func genRowCol(g *vlib.G) {
 									}
 								}
 								for k, x := range back {
-									if (k < 2 || k >= 2+l) && math.Float64bits(x) != math.Float64bits(vlib.Poison64(k)) {
+									if (k < 2 || k >= 2+l) && math.Float64bits(x) != math.Float64bits(rpoison(k)) {
 										t.Failf("%s: wrote outside dst at %d", tag, k-2)
 									}
 								}
